@@ -133,6 +133,86 @@ def run_bounded(binp, name, tier, seed, prop, extra_args=None, timeout=3000):
     return d
 
 
+UNSAFE_TOKENS = ["unsafe", "mem::forget", "ManuallyDrop", "ptr::", "from_raw", "into_raw", "unreachable_unchecked", "transmute", "MaybeUninit", "forget("]
+
+
+def unsafe_scan():
+    """token scan of the three crates' src for unsafe-related sites, compared with the audited list"""
+    import re as _re
+    found = {}
+    for crate in ("eyeball", "eyeball-im", "eyeball-im-util"):
+        root = os.path.join(gen.REPO, crate, "src")
+        for dp, _, fns in os.walk(root):
+            for fn in sorted(fns):
+                if not fn.endswith(".rs"):
+                    continue
+                rel = os.path.relpath(os.path.join(dp, fn), gen.REPO)
+                for ln in open(os.path.join(dp, fn)).read().split("\n"):
+                    code = ln.split("//")[0]
+                    for t in UNSAFE_TOKENS:
+                        c = code.count(t)
+                        if c:
+                            found.setdefault(rel, {})
+                            found[rel][t] = found[rel].get(t, 0) + c
+    audited = json.load(open(os.path.join(VERIF, "audited_unsafe.json")))["sites"]
+    new = []
+    for f, toks in found.items():
+        for t, c in toks.items():
+            if audited.get(f, {}).get(t, 0) < c:
+                new.append("%s: `%s` x%d (audited: %d)" % (f, t, c, audited.get(f, {}).get(t, 0)))
+    return {"found": found, "new_sites": new}
+
+
+def scratch_copy():
+    base = os.environ.get("TMPDIR", "/var/tmp")
+    d = os.path.join(base, "eyeball-verif.%d" % os.getpid())
+    shutil.rmtree(d, ignore_errors=True)
+    os.makedirs(d)
+    subprocess.run("cd %s && git ls-files -z --cached --others --exclude-standard | xargs -0 -I{} cp --parents {} %s 2>/dev/null" % (gen.REPO, d), shell=True)
+    return d
+
+
+def run_kani(harness_file, target_rel, package, harnesses, timeout):
+    d = scratch_copy()
+    try:
+        with open(os.path.join(d, target_rel), "a") as f:
+            f.write(open(os.path.join(VERIF, "kani", harness_file)).read())
+        cmd = ["cargo", "kani", "-p", package] + sum([["--harness", h] for h in harnesses], [])
+        t0 = time.time()
+        env = dict(os.environ, CARGO_NET_OFFLINE="true")
+        try:
+            r = subprocess.run(cmd, cwd=d, env=env, capture_output=True, text=True, timeout=timeout)
+            out = r.stdout + r.stderr
+            rc = r.returncode
+        except subprocess.TimeoutExpired as e:
+            out = (e.stdout or b"").decode() if isinstance(e.stdout, bytes) else (e.stdout or "")
+            rc = -9
+        import re as _re
+        m = _re.findall(r"\*\* (\d+) of (\d+) failed", out)
+        ok = rc == 0 and "VERIFICATION:- SUCCESSFUL" in out and "VERIFICATION:- FAILED" not in out and ("Complete - %d successfully verified harnesses, 0 failures" % len(harnesses)) in out
+        failed_checks = _re.findall(r"Check \d+: (\S+)\n\s+- Status: FAILURE\n\s+- Description: \"([^\n]*)\"", out)
+        built = "error: could not compile" not in out and "error[E" not in out
+        return {"cmd": " ".join(cmd) + "  (in a scratch copy of /repo with kani/%s appended to %s)" % (harness_file, target_rel), "ok": ok, "built": built, "rc": rc, "checks": [int(x[1]) for x in m], "failed_checks": failed_checks[:10], "solver_wall_s": round(time.time() - t0, 1), "tail": out[-1500:] if not ok else ""}
+    finally:
+        shutil.rmtree(d, ignore_errors=True)
+
+
+def run_miri(timeout=3000):
+    env = dict(os.environ, CARGO_NET_OFFLINE="true", CARGO_TARGET_DIR=os.path.join(CACHE, "miri-target"), MIRIFLAGS="-Zmiri-disable-isolation -Zmiri-tree-borrows")
+    cmd = ["cargo", "+nightly", "miri", "run", "--offline", "--", "miri-set", "--known", os.path.join(VERIF, "known_findings.json")]
+    t0 = time.time()
+    try:
+        r = subprocess.run(cmd, cwd=BOUNDED_DIR, env=env, capture_output=True, text=True, timeout=timeout)
+        out = r.stdout + r.stderr
+        rc = r.returncode
+    except subprocess.TimeoutExpired:
+        return {"cmd": " ".join(cmd), "ok": False, "built": True, "error": "timeout"}
+    import re as _re
+    m = _re.search(r"miri-set: (\d+) histories executed, (\d+) failed", out)
+    ub = [l for l in out.split("\n") if l.startswith("error: Undefined Behavior") or "memory leaked" in l or l.startswith("error: memory")]
+    return {"cmd": "MIRIFLAGS='-Zmiri-disable-isolation -Zmiri-tree-borrows' " + " ".join(cmd), "ok": rc == 0 and m is not None and m.group(2) == "0" and not ub, "built": "error: could not compile" not in out, "histories": int(m.group(1)) if m else 0, "undefined_behaviour_or_leak": ub[:5], "wall_s": round(time.time() - t0, 1), "tail": out[-1500:] if rc != 0 else ""}
+
+
 def main():
     ap = argparse.ArgumentParser()
     ap.add_argument("prop")
@@ -265,6 +345,35 @@ def main():
             for f in futs:
                 bounded_results.append(f.result())
 
+    # ---- 2b. property-specific extra engines (C20: token scan, Kani, Miri)
+    extras = {}
+    extra_violations = []
+    for ex in cfg.get("extras", []):
+        if ex == "unsafe-scan":
+            sc = unsafe_scan()
+            extras["unsafe_scan"] = sc
+        elif ex == "kani-reusable-box":
+            k = run_kani("reusable_box_harness.rs", "eyeball-im/src/reusable_box.rs", "eyeball-im", ["reusable_box_set_reuse_and_realloc", "reusable_box_try_set_layout_mismatch_returns_future"], 1200)
+            extras["kani_reusable_box"] = k
+            if not k["built"]:
+                internal.append("Kani harness for reusable_box.rs does not build against the current tree (harness needs adapting): undecided")
+            elif not k["ok"]:
+                extra_violations.append(("kani:reusable_box", k))
+        elif ex == "kani-into-shared" and tier == "thorough":
+            k = run_kani("into_shared_harness.rs", "eyeball/src/unique.rs", "eyeball", ["into_shared_keeps_state_and_drops_value_once"], 3000)
+            extras["kani_into_shared"] = k
+            if not k["built"]:
+                internal.append("Kani harness for into_shared does not build against the current tree: undecided")
+            elif not k["ok"]:
+                extra_violations.append(("kani:into_shared", k))
+        elif ex == "miri" and tier == "thorough":
+            mr = run_miri()
+            extras["miri"] = mr
+            if not mr.get("built", True):
+                internal.append("bounded crate does not build under Miri")
+            elif not mr["ok"]:
+                extra_violations.append(("miri", mr))
+
     # ---- 3. verdicts
     lines = []
     known_hit = []
@@ -314,6 +423,14 @@ def main():
             if not any(v[2] == "bounded:" + br["name"] for v in violations):
                 violations.append((rp, True, "bounded:" + br["name"]))
 
+    for name, info in extra_violations:
+        rp = os.path.join(VERIF, "replays", "%s-%s.json" % (prop, name.replace(":", "_")))
+        os.makedirs(os.path.dirname(rp), exist_ok=True)
+        json.dump({"property": prop, "obligation": name, "verifier": name.split(":")[0], "verifier_output": info, "input": None, "note": "no-failing-input-found"}, open(rp, "w"), indent=1)
+        violations.append((rp, False, name))
+    if extras.get("unsafe_scan", {}).get("new_sites"):
+        for sname in extras["unsafe_scan"]["new_sites"]:
+            lines.append("UNDECIDED property=%s obligation=unsafe-scan reason=new unsafe-related site not in the audited list: %s bounded=%s" % (prop, sname, "see bounded/Miri results"))
     n_obl = len(obligations)
     n_dis = sum(1 for o in obligations if o["verdict"] == "discharged")
     n_known = sum(1 for o in obligations if o["verdict"] == "known-finding")
@@ -324,7 +441,7 @@ def main():
 
     # ---- 4. evidence
     level = cfg["level"]
-    if und and level == "proof":
+    if (und or extras.get("unsafe_scan", {}).get("new_sites")) and level == "proof":
         level = "other"
     solver_s = sum((o.get("ms") or 0) for o in obligations) / 1000.0
     rewrites = []
@@ -373,7 +490,8 @@ def main():
         "samples": ob_samples + samples,
         "known_findings_hit": sorted(set(x for x in known_hit if x)),
         "unstable_obligations": unstable,
-        "explanation": cfg.get("explanation", ""),
+        "explanation": cfg.get("explanation", cfg.get("text", "")),
+        "extra_engines": extras,
     }
     if bounded_results:
         cov["evaluations"] = evals
